@@ -6,6 +6,7 @@ import (
 	"reflect"
 	"strings"
 
+	"github.com/cinar/indicator/v2/momentum"
 	"github.com/cinar/indicator/v2/strategy"
 	"github.com/cinar/indicator/v2/strategy/compound"
 	"github.com/cinar/indicator/v2/strategy/decorator"
@@ -22,6 +23,20 @@ type StratEntity struct {
 	Name string
 	NCfg int // number of ints Make understands besides the default (0 = default only)
 	Make func(c []int) strategy.Strategy
+}
+
+// withField builds the default strategy and, for an explicit configuration, replaces the
+// indicator it holds (an exported field a user may set) by one built from the indicator
+// catalogue, so that strategies without a With-constructor are exercised off their defaults too.
+func withField(mk func() strategy.Strategy, field, ind string) func(c []int) strategy.Strategy {
+	return func(c []int) strategy.Strategy {
+		s := mk()
+		if c != nil {
+			inst := indByName[ind].Make(c)
+			reflect.ValueOf(s).Elem().FieldByName(field).Set(reflect.ValueOf(inst))
+		}
+		return s
+	}
 }
 
 func desc(c []int) []int {
@@ -42,11 +57,19 @@ var BaseStrategies = []*StratEntity{
 		d := desc(c)
 		return st.NewAlligatorStrategyWith(d[0], d[1], d[2])
 	}},
-	{Name: "trend.Apo", Make: func(c []int) strategy.Strategy { return st.NewApoStrategy() }},
-	{Name: "trend.Aroon", Make: func(c []int) strategy.Strategy { return st.NewAroonStrategy() }},
+	{Name: "trend.Apo", NCfg: 2, Make: withField(func() strategy.Strategy { return st.NewApoStrategy() }, "Apo", "trend.Apo")},
+	{Name: "trend.Aroon", NCfg: 1, Make: withField(func() strategy.Strategy { return st.NewAroonStrategy() }, "Aroon", "trend.Aroon")},
 	{Name: "trend.Bop", Make: func(c []int) strategy.Strategy { return st.NewBopStrategy() }},
-	{Name: "trend.Cci", Make: func(c []int) strategy.Strategy { return st.NewCciStrategy() }},
-	{Name: "trend.Dema", Make: func(c []int) strategy.Strategy { return st.NewDemaStrategy() }},
+	{Name: "trend.Cci", NCfg: 1, Make: withField(func() strategy.Strategy { return st.NewCciStrategy() }, "Cci", "trend.Cci")},
+	{Name: "trend.Dema", NCfg: 2, Make: func(c []int) strategy.Strategy {
+		s := st.NewDemaStrategy()
+		if c != nil {
+			p := sorted(c)
+			s.Dema1.Ema1.Period, s.Dema1.Ema2.Period = p[0], p[0]
+			s.Dema2.Ema1.Period, s.Dema2.Ema2.Period = p[1], p[1]
+		}
+		return s
+	}},
 	{Name: "trend.Envelope", NCfg: 1, Make: func(c []int) strategy.Strategy {
 		if c == nil {
 			return st.NewEnvelopeStrategy()
@@ -67,7 +90,7 @@ var BaseStrategies = []*StratEntity{
 		fs := sorted(c[1:3])
 		return st.NewKamaStrategyWith(c[0], fs[0], fs[1])
 	}},
-	{Name: "trend.Kdj", Make: func(c []int) strategy.Strategy { return st.NewKdjStrategy() }},
+	{Name: "trend.Kdj", NCfg: 3, Make: withField(func() strategy.Strategy { return st.NewKdjStrategy() }, "Kdj", "trend.Kdj")},
 	{Name: "trend.Macd", NCfg: 3, Make: func(c []int) strategy.Strategy {
 		if c == nil {
 			return st.NewMacdStrategy()
@@ -75,7 +98,7 @@ var BaseStrategies = []*StratEntity{
 		s := sorted(c[:2])
 		return st.NewMacdStrategyWith(s[0], s[1], c[2])
 	}},
-	{Name: "trend.Qstick", Make: func(c []int) strategy.Strategy { return st.NewQstickStrategy() }},
+	{Name: "trend.Qstick", NCfg: 1, Make: withField(func() strategy.Strategy { return st.NewQstickStrategy() }, "Qstick", "momentum.Qstick")},
 	{Name: "trend.Smma", NCfg: 2, Make: func(c []int) strategy.Strategy {
 		if c == nil {
 			return st.NewSmmaStrategy()
@@ -83,7 +106,14 @@ var BaseStrategies = []*StratEntity{
 		s := sorted(c)
 		return st.NewSmmaStrategyWith(s[0], s[1])
 	}},
-	{Name: "trend.Trima", Make: func(c []int) strategy.Strategy { return st.NewTrimaStrategy() }},
+	{Name: "trend.Trima", NCfg: 2, Make: func(c []int) strategy.Strategy {
+		s := st.NewTrimaStrategy()
+		if c != nil {
+			p := sorted(c)
+			s.Short.Period, s.Long.Period = p[0], p[1]
+		}
+		return s
+	}},
 	{Name: "trend.TripleMovingAverageCrossover", NCfg: 3, Make: func(c []int) strategy.Strategy {
 		if c == nil {
 			return st.NewTripleMovingAverageCrossoverStrategy()
@@ -91,24 +121,30 @@ var BaseStrategies = []*StratEntity{
 		s := sorted(c)
 		return st.NewTripleMovingAverageCrossoverStrategyWith(s[0], s[1], s[2])
 	}},
-	{Name: "trend.Trix", Make: func(c []int) strategy.Strategy { return st.NewTrixStrategy() }},
+	{Name: "trend.Trix", NCfg: 1, Make: withField(func() strategy.Strategy { return st.NewTrixStrategy() }, "Trix", "trend.Trix")},
 	{Name: "trend.Tsi", NCfg: 3, Make: func(c []int) strategy.Strategy {
 		if c == nil {
 			return st.NewTsiStrategy()
 		}
 		return st.NewTsiStrategyWith(c[0], c[1], c[2])
 	}},
-	{Name: "trend.Vwma", Make: func(c []int) strategy.Strategy { return st.NewVwmaStrategy() }},
+	{Name: "trend.Vwma", NCfg: 1, Make: func(c []int) strategy.Strategy {
+		s := st.NewVwmaStrategy()
+		if c != nil {
+			s.Vwma.Period, s.Sma.Period = c[0], c[0] // the constructor keeps both at the same period
+		}
+		return s
+	}},
 	{Name: "trend.WeightedClose", NCfg: 1, Make: func(c []int) strategy.Strategy {
 		if c == nil {
 			return st.NewWeightedCloseStrategy()
 		}
 		return st.NewWeightedCloseStrategyWith(c[0])
 	}},
-	{Name: "momentum.AwesomeOscillator", Make: func(c []int) strategy.Strategy { return sm.NewAwesomeOscillatorStrategy() }},
-	{Name: "momentum.Rsi", Make: func(c []int) strategy.Strategy { return sm.NewRsiStrategy() }},
+	{Name: "momentum.AwesomeOscillator", NCfg: 2, Make: withField(func() strategy.Strategy { return sm.NewAwesomeOscillatorStrategy() }, "AwesomeOscillator", "momentum.AwesomeOscillator")},
+	{Name: "momentum.Rsi", NCfg: 1, Make: withField(func() strategy.Strategy { return sm.NewRsiStrategy() }, "Rsi", "momentum.Rsi")},
 	{Name: "momentum.RsiWith", Make: func(c []int) strategy.Strategy { return sm.NewRsiStrategyWith(40, 60) }},
-	{Name: "momentum.StochasticRsi", Make: func(c []int) strategy.Strategy { return sm.NewStochasticRsiStrategy() }},
+	{Name: "momentum.StochasticRsi", NCfg: 1, Make: withField(func() strategy.Strategy { return sm.NewStochasticRsiStrategy() }, "StochasticRsi", "momentum.StochasticRsi")},
 	{Name: "momentum.StochasticRsiWith", Make: func(c []int) strategy.Strategy { return sm.NewStochasticRsiStrategyWith(0.3, 0.7) }},
 	{Name: "momentum.TripleRsi", NCfg: 3, Make: func(c []int) strategy.Strategy {
 		if c == nil {
@@ -118,7 +154,7 @@ var BaseStrategies = []*StratEntity{
 		// shorter than the RSI's, as in the documented 5/200 setting
 		return sm.NewTripleRsiStrategyWith(min(c[0], c[1]), max(c[0], c[1])+1, 1+c[2]%4, 60, 30, 50)
 	}},
-	{Name: "volatility.BollingerBands", Make: func(c []int) strategy.Strategy { return sv.NewBollingerBandsStrategy() }},
+	{Name: "volatility.BollingerBands", NCfg: 1, Make: withField(func() strategy.Strategy { return sv.NewBollingerBandsStrategy() }, "BollingerBands", "volatility.BollingerBands")},
 	{Name: "volatility.SuperTrend", NCfg: 1, Make: func(c []int) strategy.Strategy {
 		if c == nil {
 			return sv.NewSuperTrendStrategy()
@@ -149,7 +185,7 @@ var BaseStrategies = []*StratEntity{
 		}
 		return so.NewForceIndexStrategyWith(c[0])
 	}},
-	{Name: "volume.MoneyFlowIndex", Make: func(c []int) strategy.Strategy { return so.NewMoneyFlowIndexStrategy() }},
+	{Name: "volume.MoneyFlowIndex", NCfg: 1, Make: withField(func() strategy.Strategy { return so.NewMoneyFlowIndexStrategy() }, "MoneyFlowIndex", "volume.Mfi")},
 	{Name: "volume.MoneyFlowIndexWith", Make: func(c []int) strategy.Strategy { return so.NewMoneyFlowIndexStrategyWith(70, 30) }},
 	{Name: "volume.NegativeVolumeIndex", NCfg: 1, Make: func(c []int) strategy.Strategy {
 		if c == nil {
@@ -163,7 +199,15 @@ var BaseStrategies = []*StratEntity{
 		}
 		return so.NewWeightedAveragePriceStrategyWith(c[0])
 	}},
-	{Name: "compound.MacdRsi", Make: func(c []int) strategy.Strategy { return compound.NewMacdRsiStrategy() }},
+	{Name: "compound.MacdRsi", NCfg: 4, Make: func(c []int) strategy.Strategy {
+		s := compound.NewMacdRsiStrategy()
+		if c != nil {
+			p := sorted(c[:2])
+			s.MacdStrategy = st.NewMacdStrategyWith(p[0], p[1], c[2])
+			s.RsiStrategy.Rsi = momentum.NewRsiWithPeriod[F](c[3])
+		}
+		return s
+	}},
 	{Name: "compound.MacdRsiWith", Make: func(c []int) strategy.Strategy { return compound.NewMacdRsiStrategyWith(40, 60) }},
 }
 
